@@ -275,7 +275,19 @@ class ExtModel:
                 if name in regs:
                     return self.registry_value(interp, regs[name], name)
             if fn.startswith("vol."):
-                return ExtObj(f"{mod.label}.{name}", "vol.validator")
+                obj = ExtObj(f"{mod.label}.{name}", "vol.validator")
+                # how the validator was built (vol.All(vol.Coerce(int), ...)), for rules that normalise validators
+                anchor = next((f for f in interp.p.funcs.values() if f.module is mod and f.parent is None and not isinstance(f.node, ast.Lambda)), None)
+                if anchor is not None:
+                    s0 = interp.new_state()
+                    s0.frames = ({"__func__": anchor, "__closure__": None},)
+                    try:
+                        outs = interp.ev(expr, s0)
+                    except Exception:  # the structured form is optional
+                        outs = []
+                    if len(outs) == 1 and outs[0][0] == "val" and isinstance(outs[0][2], ExtObj) and outs[0][2].cls.startswith("vol."):
+                        obj.built = outs[0][2]
+                return obj
         if isinstance(expr, (ast.Dict, ast.List, ast.Tuple, ast.Set)):
             ty = {ast.Dict: ("dict", None, None), ast.List: "list", ast.Tuple: "tuple", ast.Set: "set"}[type(expr)]
             return Sym(("global", mod.label, name), ty)
@@ -525,6 +537,34 @@ class ExtModel:
                     out.append(r[0][2])
                 return [("val", st, ListV(out, label=f"map:{site}"))]
             return [("val", st, ListV(None, elem=Unknown("str", label=f"str(elem:{args[1].key()!r})"), label=f"map:{site}"))]
+        if len(args) == 2 and isinstance(args[0], V) and getattr(args[0], "ty", None) in ("callable",) or (len(args) == 2 and isinstance(args[0], ExtV)):
+            # map(f, xs) for any callable: like [f(x) for x in xs] (consumed where it is built: list(map(...)))
+            fn, src = args
+            items = interp._exact_items(src)
+            if items is not None and len(items) <= 12:
+                outs = [("val", st, [])]
+                for it_ in items:
+                    nxt = []
+                    for k, s2, acc in outs:
+                        if k != "val":
+                            nxt.append((k, s2, acc))
+                            continue
+                        for k3, s3, v3 in interp.call(s2, fn, [it_], {}, node):
+                            nxt.append((k3, s3, acc + [v3]) if k3 == "val" else (k3, s3, v3))
+                    outs = nxt
+                return [(k, s2, ListV(acc, label=f"map:{site}")) if k == "val" else (k, s2, acc) for k, s2, acc in outs]
+            elem = self.iter_elem(interp, st, src, node, 0)
+            res = []
+            for k, s2, v in interp.call(st, fn, [elem], {}, node):
+                if k == "val":
+                    lst = ListV(None, elem=v, label=f"map:{site}")
+                    for a in ("minlen", "maxlen", "exactlen"):
+                        if getattr(src, a, None) is not None:
+                            setattr(lst, a, getattr(src, a))
+                    res.append(("val", s2, lst))
+                else:
+                    res.append((k, s2, v))
+            return res
         return [("val", st, Unknown(label=f"map:{site}"))]
 
     def b_bool(self, interp, st, args, kwargs, node):
@@ -635,6 +675,14 @@ class ExtModel:
             exact = interp._exact_items(args[0])
             if exact is not None:
                 return [("val", st, ListV(exact, label=f"list:{self._site(interp, st, node)}"))]
+        if args and isinstance(args[0], ListV):
+            # a copy of a list of unknown length keeps what is known about its elements and its length
+            src = args[0]
+            lst = ListV(None, elem=getattr(src, "elem", None), label=f"list:{self._site(interp, st, node)}:{src.key()!r}")
+            for a in ("minlen", "maxlen", "exactlen", "nonempty"):
+                if getattr(src, a, None) is not None:
+                    setattr(lst, a, getattr(src, a))
+            return [("val", st, lst)]
         return [("val", st, ListV(None, label=f"list:{self._site(interp, st, node)}"))]
 
     def b_tuple(self, interp, st, args, kwargs, node):
